@@ -2,8 +2,10 @@ package main
 
 import (
 	"fmt"
+	"go/constant"
 	"go/token"
 	"go/types"
+	"strings"
 
 	"golang.org/x/tools/go/ssa"
 )
@@ -343,7 +345,71 @@ func isExitCall(in ssa.Instruction) bool {
 	if o == nil {
 		return false
 	}
+	if exitHelpers[o.Origin()] {
+		return true
+	}
 	return isFunc(o, "os", "", "Exit") || (objPkgPath(o) == "log" && (o.Name() == "Fatal" || o.Name() == "Fatalf" || o.Name() == "Fatalln"))
+}
+
+// exitHelpers: private helpers of cli.Run that never return — every path prints one of their parameters to os.Stderr
+// and then calls os.Exit with a non-zero constant (verified by computeExitHelpers at load time).
+var exitHelpers = map[*types.Func]bool{}
+
+func computeExitHelpers(p *Prog) {
+	exitHelpers = map[*types.Func]bool{}
+	anchor := p.Func("cli.Run")
+	if anchor == nil {
+		return
+	}
+	for _, rf := range p.Region("cli.Run") {
+		if rf == anchor {
+			continue
+		}
+		sf := p.SSAFunc(rf)
+		if sf == nil || len(sf.Blocks) == 0 || sf.Signature.Results().Len() != 0 {
+			continue
+		}
+		exitOK := func(in ssa.Instruction) bool {
+			c, ok := in.(ssa.CallInstruction)
+			if !ok || ssaCalleeObj(c) == nil || !isFunc(ssaCalleeObj(c), "os", "", "Exit") {
+				return false
+			}
+			k, ok := c.Common().Args[0].(*ssa.Const)
+			return ok && k.Value != nil && constant.Sign(k.Value) != 0
+		}
+		anyExit := func(in ssa.Instruction) bool {
+			c, ok := in.(ssa.CallInstruction)
+			return ok && ssaCalleeObj(c) != nil && isFunc(ssaCalleeObj(c), "os", "", "Exit")
+		}
+		// no return, no exit with status 0
+		if existsPath(sf.Blocks[0], 0, func(in ssa.Instruction) bool { return isReturn(in) || (anyExit(in) && !exitOK(in)) }, exitOK) != nil {
+			continue
+		}
+		// a parameter is printed to os.Stderr before the exit
+		params := map[ssa.Value]bool{}
+		for _, prm := range sf.Params {
+			params[prm] = true
+		}
+		printOK := func(in ssa.Instruction) bool {
+			c, ok := in.(ssa.CallInstruction)
+			if !ok || ssaCalleeObj(c) == nil || objPkgPath(ssaCalleeObj(c)) != "fmt" || !strings.HasPrefix(ssaCalleeObj(c).Name(), "Fprint") {
+				return false
+			}
+			if !isGlobalLoad(c.Common().Args[0], "os", "Stderr") {
+				return false
+			}
+			for _, a := range c.Common().Args[1:] {
+				if flowsFrom(a, params) {
+					return true
+				}
+			}
+			return false
+		}
+		if existsPath(sf.Blocks[0], 0, exitOK, printOK) != nil {
+			continue
+		}
+		exitHelpers[rf.Obj.Origin()] = true
+	}
 }
 
 type errVerdict struct {
